@@ -70,9 +70,14 @@ fn instance_msg(variant: u8) -> v1::Instance {
     }
     InstRep {
         sense: if variant == 1 { SENSE_MIN } else { SENSE_MAX },
-        objective: Some(FnRep::Lin { terms: vec![(1, 1.0), (2, -0.5)], c: variant as f64 }),
-        vars: vec![VarRep::new(1, KIND_BINARY, None), VarRep::new(2, KIND_CONTINUOUS, Some((0.0, 2.0)))],
-        constraints: vec![ConRep::new(3, LE_ZERO, Some(FnRep::Lin { terms: vec![(1, 1.0)], c: -1.0 })).with_meta("c")],
+        // every list is stored as given: unsorted ids, unsorted and repeated terms
+        objective: Some(FnRep::Lin { terms: vec![(2, -0.5), (1, 1.0), (2, 0.25)], c: variant as f64 }),
+        vars: vec![VarRep::new(2, KIND_CONTINUOUS, Some((0.0, 2.0))), VarRep::new(7, KIND_INTEGER, None), VarRep::new(1, KIND_BINARY, None)],
+        constraints: vec![
+            ConRep::new(40, LE_ZERO, Some(FnRep::Lin { terms: vec![(1, 1.0)], c: -1.0 })).with_meta("c"),
+            ConRep::new(3, EQ_ZERO, Some(FnRep::Quad { entries: vec![(2, 1, 1.0)], lin: None })),
+        ],
+        removed: vec![RemRep { constraint: ConRep::new(5, LE_ZERO, Some(FnRep::Const(-1.0))), reason: "r".into(), parameters: vec![] }],
         description_name: Some(format!("instance-{variant}")),
         ..Default::default()
     }
@@ -85,10 +90,12 @@ fn bytes_of(l: &LayerRep) -> Vec<u8> {
         1 => {
             let mut p = v1::ParametricInstance::from(instance_msg(l.variant));
             if l.variant > 0 {
-                let mut x = v1::Parameter::default();
-                x.id = 10 + l.variant as u64;
-                x.name = Some("p".into());
-                p.parameters.push(x);
+                for id in [20 + l.variant as u64, 10 + l.variant as u64] {
+                    let mut x = v1::Parameter::default();
+                    x.id = id;
+                    x.name = Some("p".into());
+                    p.parameters.push(x);
+                }
             }
             p.encode_to_vec()
         }
@@ -480,6 +487,27 @@ pub fn check_foreign_layers(l: &mut Local, case: &impl Serialize, layers: &[Laye
                 Ok(ds) if ds.len() == stored.iter().filter(|x| x.0 == *kind).count() => {}
                 Ok(ds) => bad.push((format!("{kname}/descriptor-listing"), format!("{} descriptors listed for the published media type, {} stored", ds.len(), stored.iter().filter(|x| x.0 == *kind).count()))),
                 Err(e) => bad.push((format!("{kname}/descriptor-listing"), format!("{e:#}"))),
+            }
+        }
+        // positional listings: every layer of the kind, in stored order, with its own message
+        match a.get_instances() {
+            Err(e) => bad.push(("get_instances/error".to_string(), format!("{e:#}"))),
+            Ok(v) => {
+                let got: Vec<Vec<u8>> = v.iter().map(|(_, m)| m.encode_to_vec()).collect();
+                let want: Vec<Vec<u8>> = stored.iter().filter(|x| x.0 == 0).map(|x| x.1.clone()).collect();
+                if got != want {
+                    bad.push(("get_instances/listing".to_string(), format!("get_instances returned {} messages, {} instance layers stored (or order / content differs)", got.len(), want.len())));
+                }
+            }
+        }
+        match a.get_solutions() {
+            Err(e) => bad.push(("get_solutions/error".to_string(), format!("{e:#}"))),
+            Ok(v) => {
+                let got: Vec<Vec<u8>> = v.iter().map(|(_, m)| m.encode_to_vec()).collect();
+                let want: Vec<Vec<u8>> = stored.iter().filter(|x| x.0 == 2).map(|x| x.1.clone()).collect();
+                if got != want {
+                    bad.push(("get_solutions/listing".to_string(), format!("get_solutions returned {} messages, {} solution layers stored (or order / content differs)", got.len(), want.len())));
+                }
             }
         }
         Ok(bad)
